@@ -587,10 +587,10 @@ def cases(tier, seed):
     # directed: the confirmed mechanisms first
     i = 0
     for op in ("update", "extend", "iadd", "add"):
-        for k in range(60 if quick else 400):
+        for k in range(200 if quick else 800):
             yield {"kind": "library", "mode": "merge", "op": op, "i": i, "seed": seed}
             i += 1
-    for k in range(100 if quick else 1000):
+    for k in range(300 if quick else 2000):
         yield {"kind": "library", "mode": "insert", "op": "-", "i": i, "seed": seed}
         i += 1
     # sumtrees: fixed dozen of schedules x a few configurations
